@@ -99,6 +99,12 @@ def run(ctx):
             vs.append({"sysmode": "td", "unique": True})
         if idx % 3 == 1:
             vs.append({"sysmode": "td", "unique": True, "rot": "haar"})      # non-diagonal coupling with degeneracy reduction
+        if idx % 5 == 0:
+            if case["alg"] == "row":
+                vs.append({"sysmode": "td", "legs": True})          # TEMPO continued in a second call
+            else:
+                # PT-TEMPO in a rotated basis, the tensor exported and imported again before compute_dynamics
+                vs.append({"sysmode": "td", "rot": "haar", "pt_roundtrip": ("simple", "file")[(idx // 5) % 2]})
         if case["K"] != eng.KNONE and idx % 3 == 2:
             # memory given as tcut = K * dt with a decimal dt (the quotient tcut / dt is not an integer in floating point):
             # both methods must still keep exactly K steps of memory
